@@ -69,10 +69,12 @@ def with_fields_set(cls: Cls) -> Cls:
 
     def new_setattr(self, attr, value):
         try:
-            self.__dict__[FIELDS_SET_ATTR].add(attr)
+            fields_set = self.__dict__[FIELDS_SET_ATTR]
         except KeyError:
             raise RuntimeError(dataclass_before_error) from None
         old_setattr(self, attr, value)  # type: ignore
+        # after the assignment, which can be refused (e.g. frozen dataclass)
+        fields_set.add(attr)
 
     for attr, old, new in [
         ("__new__", old_new, new_new),
